@@ -12,14 +12,18 @@ def plan(tier):
                 "into the real code (quick: 1/8 of it); impl->spec: one run = one model object (plain / opt_end without / opt_end with end distribution; three "
                 "constructors) used for 2-5 observation sequences, each decoded by viterbi, forward and backward",
         "bounds": {"mc": "S=2, M=2, Den=2, T<=3, all sub-stochastic transition rows (quick: reduced emission/"
-                         "initial/end families; thorough: all rows, plus S=3,M=1 stochastic)",
+                         "initial/end families; thorough: all emission/initial rows, two end vectors + none, plus S=3,M=1 "
+                         "stochastic)",
                    "impl": "S<=4, M<=3, Den in {2,3,4,5,10}, T<=4 (T<=14 for small Den), Den^(2T+1) <= 2^30, "
                            "S^T <= 4096 (quick) / 16384 (thorough)"},
         "assumptions": ["harness projection (the only arithmetic it does): numerator k -> f64 k/den on input; "
                         "log-probability lp -> round(exp(lp)*den^(2T+1)) on output, with flags nan/posinf/neginf "
                         "(exact for scales <= 2e9)",
                         "TLC evaluates the integer path sums faithfully (32-bit, no overflow within the bounds)",
-                        "observation sequences are non-empty (property precondition)"],
+                        "observation sequences are non-empty (property precondition)",
+                        "which of several maximal Viterbi paths is returned is not part of the property: any arg-max "
+                        "path is accepted; a path differing from the machine layer's tie-break (floating-point "
+                        "rounding decides exact ties) is reported as MODEL-DRIFT only"],
     }
 
 
